@@ -3,15 +3,15 @@
  "property": "C12",
  "standin": "B-gsu",
  "bound": "displays with <= 3 elements x 4 layouts x 4 kinds x delete subsets x 5 insert patterns (1500 sampled cases quick / all thorough) through the real apply_all + new_code",
- "input": "('dict', 'single', ('1', '0+2', '\"\"\"a\\nb\"\"\"'), (0, 1), {3: ['8', '9']})",
- "detail": "AssertionError: (Replacement(range=SourceRange(start=SourcePosition(lineno=1, col_offset=4), end=SourcePosition(lineno=2, col_offset=4)), text=\", 'k30': 8, 'k31': 9\", change_id=44), Replacement(range=SourceRange(start=SourcePosition(lineno=1, col_offset=15), end=SourcePosition(lineno=1, col_offset=29)), text='', change_id=44))"
+ "input": "('dict', 'single', ('1', '0+2', '\"\"\"a\\nb\"\"\"'), (0,), {3: ['8', '9']})",
+ "detail": "AssertionError: (Replacement(range=SourceRange(start=SourcePosition(lineno=1, col_offset=4), end=SourcePosition(lineno=2, col_offset=4)), text=\", 'k30': 8, 'k31': 9\", change_id=63), Replacement(range=SourceRange(start=SourcePosition(lineno=1, col_offset=15), end=SourcePosition(lineno=1, col_offset=21)), text='', change_id=63))"
 }
 """
 
 import sys, tempfile
 sys.path.insert(0, "/verif")
 from bounded.b_gsu import one_case
-msg = one_case(tempfile.mkdtemp(), *('dict', 'single', ('1', '0+2', '"""a\nb"""'), (0, 1), {3: ['8', '9']}))
-print(('dict', 'single', ('1', '0+2', '"""a\nb"""'), (0, 1), {3: ['8', '9']}), "->", msg)
+msg = one_case(tempfile.mkdtemp(), *('dict', 'single', ('1', '0+2', '"""a\nb"""'), (0,), {3: ['8', '9']}))
+print(('dict', 'single', ('1', '0+2', '"""a\nb"""'), (0,), {3: ['8', '9']}), "->", msg)
 assert msg is None, msg
 
